@@ -23,6 +23,23 @@ def load_cases():
     for c in cases:
         if c['id'] in extra_cases.OVERRIDES:
             c.update(extra_cases.OVERRIDES[c['id']])
+    # the three operator batches of the design round re-used ids; a later record with the same edit but a
+    # contradicting verdict is a data-entry error of that round: the first record wins
+    seen_edit, uniq = {}, []
+    for c in cases:
+        k = (c['path'], c['find'], c['replace'])
+        if k in seen_edit:
+            continue
+        seen_edit[k] = c
+        uniq.append(c)
+    cases = uniq
+    used = set()
+    for c in cases:
+        base, k = c['id'], 2
+        while c['id'] in used:
+            c['id'] = '%s~%d' % (base, k)
+            k += 1
+        used.add(c['id'])
     ids = {c['id'] for c in cases}
     for c in extra_cases.EXTRA:
         if c['id'] in ids:
